@@ -190,14 +190,22 @@ def run_variant(spec, var, budget=20000):
         for name in spec["events"]:
             Clock.next_step()
             prev = charts.config_of(h)
-            if drive == "dispatch" or not queued:
-                h.dispatch(ev(name))
-                out["steps"].append(observe("dispatch", prev))
-            else:
-                h.post_fifo(ev(name))
-                del t.raw[:]
-                h.next_rtc()
-                out["steps"].append(observe("next_rtc", prev))
+            try:
+                if drive == "dispatch" or not queued:
+                    kind = "dispatch"
+                    h.dispatch(ev(name))
+                else:
+                    kind = "next_rtc"
+                    h.post_fifo(ev(name))
+                    del t.raw[:]
+                    h.next_rtc()
+                out["steps"].append(observe(kind, prev))
+            except RuntimeError as e:
+                if "raised by the handler" not in str(e):
+                    raise
+                # a handler script failed on purpose: the caller catches it and carries on with the next event
+                out["steps"].append(observe(kind, prev))
+                out["steps"][-1]["raised"] = True
             if queued and var.get("clear_after") == len(out["steps"]) - 1 and getattr(h, "instrumented", False):
                 # the user wipes both logs between two steps: what follows starts from empty logs
                 h.clear_spy()
@@ -301,6 +309,8 @@ def expected_trace(run):
         if o["kind"] == "start":
             exp.append((k, ("top", None, charts.name_of(o["state"]))))
             continue
+        if o.get("raised"):
+            continue
         offers = [r for r in o["raw"] if r[0] == "ret" and r[1] > 10]
         tran = [r for r in offers if r[3] == TRAN]
         # the event of the step is the first user-signal offer (later user-signal calls cannot occur inside one step)
@@ -323,7 +333,8 @@ def check_trace(spec, var, run, rings=None):
         want = [exp[k]] if k in exp else []
         if got != want:
             cls = "missing" if len(got) < len(want) else ("extra" if len(got) > len(want) else "fields")
-            why = "start" if o["kind"] == "start" else ("transition" if want else ("ignored" if o["ignored"] else "handled"))
+            why = "start" if o["kind"] == "start" else ("after-raise" if (k > 0 and run["steps"][k - 1].get("raised")) else
+                                                           ("transition" if want else ("ignored" if o["ignored"] else "handled")))
             out.append(("trace/%s/%s" % (cls, why), "step %d (%s, %s): new trace records %r, expected %r" % (k, o["kind"], why, got, want)))
             return out
         if any(d is None for (d, _, _, _) in o["trace_new"]):
